@@ -1,7 +1,7 @@
 (* C01 — Two endpoints built on the library interoperate, even across transport loss.
    Statements only.  Nothing else may be added to this file. *)
 From MQ Require Import Base.Prelude Alloc.Alloc Framing.Framing Framing.FramingProofs Conn.Types Conn.ConnRecord Conn.Step
-                       Corr.ConnTrace Conn.Scope Conn.Session Conn.IdsQuota Conn.Own Conn.OwnStep Conn.Run Conn.PairQos.
+                       Corr.ConnTrace Conn.Scope Conn.Session Conn.IdsQuota Conn.Own Conn.OwnStep Conn.Run Conn.PairQos Conn.PairQos5.
 
 (* what the pair property rests on, each proved for ALL states of one endpoint:
    (i) delivery in any fragmentation is the same byte stream (C09) *)
@@ -68,6 +68,54 @@ Theorem C01_pair_qos2_completes : forall gs gr cs cr p,
 Proof. exact qos2_completes. Qed.
 Print Assumptions C01_pair_qos2_completes.
 
+(* v5.0: the same two exchanges, with the Receive Maximum account.  Premises on top of the v3.1.1 ones: no topic alias
+   in play (the packet carries a topic and no alias, no alias table for sending), the PUBLISH fits the peer's Maximum
+   Packet Size and a Receive Maximum slot is free on both sides, a bare acknowledgement fits the peer's limit.  The slot
+   the PUBLISH takes is given back by the final acknowledgement: the count is what it was. *)
+Theorem C01_pair_qos1_completes_v5 : forall gs gr cs cr p,
+  OWN gs cs -> ready5 cs -> v5_pub p 1 -> fresh cs (k_pid p) -> is_used cs (k_pid p) = true ->
+  size_ok cs p = true -> c_ta_send cs = None -> quota_left cs ->
+  ready5 cr -> c_auto_pub cr = true -> recv_quota_left cr -> ack_fits gr cr ->
+  exists cs1 e1 cr1 e2 cs2 e3,
+    send_publish_v5 gs cs p = Ok (cs1, e1) /\ In p (sends e1) /\
+    deliver gr cr p = Ok (cr1, e2) /\ notifies e2 = [p] /\ In (puback5_for gr p) (sends e2) /\
+    deliver gs cs1 (puback5_for gr p) = Ok (cs2, e3) /\ In (k_pid p) (released e3) /\
+    is_used cs2 (k_pid p) = false /\ store_has (k_pid p) (c_store cs2) = false /\
+    mem (k_pid p) (c_puback cs2) = false /\ mem (k_pid p) (c_pubrec cs2) = false /\ mem (k_pid p) (c_pubcomp cs2) = false /\
+    c_send_count cs2 = c_send_count cs.
+Proof. exact qos1_completes5. Qed.
+Print Assumptions C01_pair_qos1_completes_v5.
+
+Theorem C01_pair_qos2_completes_v5 : forall gs gr cs cr p,
+  OWN gs cs -> ready5 cs -> c_auto_pub cs = true -> v5_pub p 2 -> fresh cs (k_pid p) -> is_used cs (k_pid p) = true ->
+  size_ok cs p = true -> c_ta_send cs = None -> quota_left cs -> ack_fits gs cs ->
+  ready5 cr -> c_auto_pub cr = true -> mem (k_pid p) (c_qos2 cr) = false -> recv_quota_left cr -> ack_fits gr cr ->
+  exists cs1 e1 cr1 e2 cs2 e3 cr2 e4 cs3 e5,
+    send_publish_v5 gs cs p = Ok (cs1, e1) /\ In p (sends e1) /\
+    deliver gr cr p = Ok (cr1, e2) /\ notifies e2 = [p] /\ In (pubrec5_for gr p) (sends e2) /\
+    deliver gs cs1 (pubrec5_for gr p) = Ok (cs2, e3) /\ In (pubrel5_for gs p) (sends e3) /\ is_used cs2 (k_pid p) = true /\
+    deliver gr cr1 (pubrel5_for gs p) = Ok (cr2, e4) /\ notifies e4 = [pubrel5_for gs p] /\ In (pubcomp5_for gr p) (sends e4) /\
+    deliver gs cs2 (pubcomp5_for gr p) = Ok (cs3, e5) /\ In (k_pid p) (released e5) /\
+    is_used cs3 (k_pid p) = false /\ store_has (k_pid p) (c_store cs3) = false /\
+    mem (k_pid p) (c_puback cs3) = false /\ mem (k_pid p) (c_pubrec cs3) = false /\ mem (k_pid p) (c_pubcomp cs3) = false /\
+    c_send_count cs3 = c_send_count cs.
+Proof. exact qos2_completes5. Qed.
+Print Assumptions C01_pair_qos2_completes_v5.
+
+Theorem C01_send_call_is_send_publish_v5 : forall g c p q, c_version c = V50 -> v5_pub p q ->
+  step g c (OSend p) = bindr (send_publish_v5 g c p) (fun '(c', e) => Ok (c', e, [])).
+Proof. exact step_send_publish_v5. Qed.
+Print Assumptions C01_send_call_is_send_publish_v5.
+
+Theorem C01_recv_call_is_deliver_v5 : forall g c bytes p hdr body pb' rest,
+  feed (c_pb c) bytes = (FComplete hdr body, pb', rest) ->
+  hd 0 hdr / 16 = k_type p -> 3 <= k_type p <= 7 -> c_version c = V50 ->
+  (c_mps_recv c <? remaining_length_to_total_size (N.of_nat (length body))) = false ->
+  step g c (ORecv bytes (PROk p)) =
+  bindr (deliver g (set_pb c pb') p) (fun '(c', e) => Ok (c', e, [N.of_nat (length rest)])).
+Proof. exact step_recv_is_deliver5. Qed.
+Print Assumptions C01_recv_call_is_deliver_v5.
+
 (* the tie of those statements to the step function that the correspondence runs against the code *)
 Theorem C01_send_call_is_send_publish : forall g c p q, c_version c = V311 -> v311_pub p q ->
   step g c (OSend p) = bindr (send_publish_v311 c p) (fun '(c', e) => Ok (c', e, [])).
@@ -89,7 +137,7 @@ Print Assumptions C01_recv_call_is_deliver.
    quiescence (all identifiers released, stores empty, full vacancy) — are decided on PAIRS OF REAL OBJECTS by
    the monitor mon_c01 (harness conn_duo.rs wires a client and a server object by two byte
    queues) and both objects are tied to the model by the full-digest correspondence chk_duo.  What is PROVED of the
-   pair is the single-exchange completion above (one QoS 1 / QoS 2 exchange on an intact v3.1.1 link, from every
+   pair is the single-exchange completion above (one QoS 1 / QoS 2 exchange on an intact v3.1.1 or v5.0 link, from every
    admissible pair of states) together with the per-endpoint facts (i)-(iv) and those under C05-C16; a pair invariant
    with a termination measure for arbitrarily many concurrent exchanges and loss points is not part of this
    development. *)
@@ -129,3 +177,31 @@ Example C01_nonvacuous :
   | Panic _ => False
   end.
 Proof. vm_compute. reflexivity. Qed.
+
+(* ... and the v5.0 premises by two endpoints that negotiated Receive Maximum 2 / 3 and a Maximum Packet Size *)
+Example C01_pair_v5_nonvacuous :
+  let gs := mkCfg RClient 65535 2 in
+  let gr := mkCfg RServer 65535 2 in
+  let cn := mkPkt 1 V50 0 0 false false [] None 0 0 24 false 0 true 0 None (Some 3) (Some 100) None None in
+  let ca := mkPkt 2 V50 0 0 false false [] None 0 0 11 true 0 false 0 None (Some 2) (Some 50) None None in
+  let ops_s := [OSetAutoPub true; OSend cn; ORecv [32;9;0;0;6;33;0;2;39;0;0;0;50] (PROk ca); OAcquire] in
+  let ops_r := [OSetAutoPub true; ORecv [16;13;0;4;77;81;84;84;5;2;0;0;0;0;0] (PROk cn); OSend ca] in
+  let p2 := mkPkt 3 V50 1 2 false false [116] None 0 0 8 false 0 false 0 None None None None None in
+  match run_state gs (conn_new gs V50) ops_s, run_state gr (conn_new gr V50) ops_r with
+  | Some cs, Some cr =>
+      OWN gs cs /\ ready5 cs /\ c_auto_pub cs = true /\ v5_pub p2 2 /\ fresh cs 1 /\ is_used cs 1 = true /\
+      size_ok cs p2 = true /\ c_ta_send cs = None /\ quota_left cs /\ ack_fits gs cs /\ c_send_max cs = Some 2 /\ c_mps_send cs = 50 /\
+      ready5 cr /\ c_auto_pub cr = true /\ mem 1 (c_qos2 cr) = false /\ recv_quota_left cr /\ ack_fits gr cr /\ c_recv_max cr = Some 2
+  | _, _ => False
+  end.
+Proof.
+  cbv zeta.
+  pose proof (fresh_OWN_invariant (mkCfg RClient 65535 2) V50
+    [OSetAutoPub true; OSend (mkPkt 1 V50 0 0 false false [] None 0 0 24 false 0 true 0 None (Some 3) (Some 100) None None);
+     ORecv [32;9;0;0;6;33;0;2;39;0;0;0;50] (PROk (mkPkt 2 V50 0 0 false false [] None 0 0 11 true 0 false 0 None (Some 2) (Some 50) None None)); OAcquire]) as HO.
+  assert (H1 : 1 <= g_idmax (mkCfg RClient 65535 2)) by (cbn; lia).
+  assert (H2 : V50 <> VUndet) by discriminate.
+  specialize (HO H1 H2). clear H1 H2.
+  match type of HO with ?A -> _ => assert (HQ : A) by (vm_compute; repeat split; try reflexivity; try discriminate; intros; try discriminate) end.
+  specialize (HO HQ). clear HQ. revert HO. vm_compute. intro HO. split; [exact HO|]. repeat split; try reflexivity; try discriminate.
+Qed.
